@@ -30,6 +30,11 @@ def uuid(n):
     return Agg("struct", "Uuid", [Cell(Agg("array", None, [Cell(Int(n if i == 0 else 0, 8)) for i in range(16)]))])
 
 
+def uuid_b0(u):
+    x = M.deref(u)
+    return x.fields[0].v.fields[0].v.v
+
+
 def op_choices():
     out = []
     for f in (0, 1):
@@ -41,17 +46,17 @@ def op_choices():
     return out
 
 
-def make_meta(eng, ctx, tag, prog):
+def make_meta(eng, ctx, tag, prog, sym_kind=True, sym_tag=True):
     """SecretMeta with symbolic kind (Note|Account), symbolic tag set ({} or {"t"}), symbolic favourite"""
     meta = eng.call_named("<SecretMeta as Default>::default", [], None)
-    kind_sel = ctx.branch(z3.Bool(tag + "_kind"))
+    kind_sel = ctx.branch(z3.Bool(tag + "_kind")) if sym_kind else False
     kname, _ = KINDS[1 if kind_sel else 0]
     d = prog.enum_variant("SecretType", kname)
     meta.fields[0].v = EnumV("SecretType", kname, d, [])
     k8 = eng.call_named("<u8 as From<&SecretType>>::from", [Ref(Cell(EnumV("SecretType", kname, d, [])))], None)
     meta.fields[2].v = bytes_from_concrete(("L" + tag).encode(), utf8=True)
     tags = M.SetV("HashSet")
-    has_tag = ctx.branch(z3.Bool(tag + "_tag"))
+    has_tag = ctx.branch(z3.Bool(tag + "_tag")) if sym_tag else True
     if has_tag:
         tags.items.append(bytes_from_concrete(b"t", utf8=True))
     meta.fields[3].v = tags
@@ -125,6 +130,22 @@ def run_shape(prog, shape):
         have = sorted((b0(k.fields[1].v), b0(k.fields[2].v)) for k, _ in docs.entries)
         if have != sorted(live.keys()):
             bad("documents differ from the live secrets", "documents=%s live=%s" % (have, sorted(live)))
+        else:
+            out["discharged"] += 1
+        # every document carries the attributes last written for its secret
+        out["obligations"] += 1
+        stale = []
+        for k, c in docs.entries:
+            key = (b0(k.fields[1].v), b0(k.fields[2].v))
+            a = live.get(key)
+            if a is None:
+                continue
+            meta = c.v.fields[2].v
+            got = (meta.fields[0].v.variant, len(meta.fields[3].v.items) > 0, meta.fields[4].v is True)
+            if got != (a["kind"], bool(a["tag"]), bool(a["favorite"])):
+                stale.append((key, got, (a["kind"], a["tag"], a["favorite"])))
+        if stale:
+            bad("a document does not carry its secret's current kind / tags / favourite flag", "stale=%s" % (stale,))
         else:
             out["discharged"] += 1
         # recount
@@ -243,9 +264,20 @@ def run(tier, regenerate=True):
     if rep is not None:
         rep.close()
     chk.functions = {kk: {"mir_blocks_executed": v} for kk, v in sorted(blocks.items())}
+    # ---- the merge path: <Folder as FolderMerge>::merge replays received events onto the served folder and the index
+    from . import merge_replay as MR
+    mprog = H.load_program(MR.CRATES, regenerate=regenerate)
+    chk.extra["mir_regeneration_s"].update(mprog.timings)
+    msh = MR.shapes(tier)
+    chk.bounds["merge_replay"] = {"patches": len(msh), "events_per_patch_max": 2 if tier == "quick" else 3,
+                                  "quick_slice": "plus three-event patches touching one id three times",
+                                  "well_formed": "create of a non-live id, update/delete of a live id, rename, re-flag; merged into an empty folder"}
+    mres = par.map_entries(lambda s: MR.run_shape(mprog, s), msh)
+    MR.collect(chk, mres, "C20")
     chk.assumptions = [
-        "index bookkeeping only: tokenisation and ranking (probly-search) are a membership set; the merge replay in "
-        "folder_sync.rs and the LocalAccount plumbing that drives the index are outside this check",
+        "index bookkeeping, and the merge replay of folder_sync.rs (<Folder as FolderMerge>::merge with the Search "
+        "option, real SearchIndex, harness access point and event log); tokenisation and ranking (probly-search) are a "
+        "membership set; the LocalAccount plumbing that drives the index for local edits is outside this check",
         "histories of at most %d operations from the empty index over 2 folders x 2 ids" % max_n,
     ]
     return chk.finish(rule="one state = one path of an operation history with symbolic document attributes")
@@ -253,6 +285,12 @@ def run(tier, regenerate=True):
 
 def replay(path):
     case = json.load(open(path))
+    if case.get("op") == "model_only":
+        from . import merge_replay as MR
+        if MR.replay_model(case, PROP):
+            print("VIOLATION property=%s replay=%s" % (PROP, path))
+            return 1
+        return 0
     rep = Replayer("dev")
     nat = rep.run(case)
     rep.close()
